@@ -122,7 +122,7 @@ def one_call(ctx, rep, drv_batch, kind, rel, limit, rep_i, nested=False):
     events = [e for _, e in sorted(probe.events)]
     drv_batch.append((inp, cls, events))
     if in_f_at_return != 0:
-        rep.disagree('worker-still-in-f-at-return', inp, {'in_f': in_f_at_return}, cls)
+        rep.disagree('worker-still-in-f-at-return', inp, {'in_f': in_f_at_return, 'elapsed': t1 - t0}, cls)
     # timing: clearly in time must be delivered, clearly late must time out (unless f ends by itself: late but safe)
     slack = .35
     f_end = [t for t, e in probe.events if e in ('f_end_ok', 'f_end_err')]
@@ -166,8 +166,8 @@ def run(ctx, rep):
                     i += 1
                     if not ctx.mine(i):
                         continue
-                    if kind in ('swallow', 'sleep') and rel > 1.3:
-                        continue   # join blocks until f ends by itself: keep the run short
+                    # (for 'swallow' / 'sleep' beyond the limit the join blocks until f ends by itself: the call takes
+                    # rel x limit, and the caller must not get control back earlier)
                     one_call(ctx, rep, batch, kind, rel, limit, rep_i)
                     if ctx.out_of_time():
                         break
